@@ -76,6 +76,29 @@ def r05_1(chk, facts):
             facts_ = {'function': fn['q'], 'line': c.get('l'), 'buffer_size': N, 'format': fmt, 'precision': prec if prec is not None else (A.text(args[3])[:30] if len(args) > 3 else None)}
             Ntext = A.text(A.strip(args[1], casts=True)) if len(args) > 1 and N is None else None
             conv = fmt.strip()[-1:] if fmt else ''
+            if not fmt and len(args) > 2 and (A.strip(args[2], casts=True) or {}).get('dk') == 'ParmVar':
+                # the format is a parameter: every caller in the file passes a string literal -> the bound must hold for each of them
+                pid = A.strip(args[2], casts=True).get('id')
+                pos = next((j for j, p_ in enumerate(fn['params']) if p_['id'] == pid), None)
+                lits = []; unknown = pos is None
+                for caller in fns:
+                    for cc in A.walk_no_lambda(caller['body']):
+                        if not (A.is_call(cc) and A.callee_name(cc) == fn['n']): continue
+                        cal = facts.callee(caller, cc)
+                        if cal is not None and (cal['file'], cal['l']) != (fn['file'], fn['l']): continue
+                        ca = cc.get('args') or []
+                        lit = [x.get('s', '') for x in A.walk(ca[pos])] if pos is not None and pos < len(ca) else []
+                        lit = [x for x in lit if x]
+                        if lit: lits.append(lit[0])
+                        else: unknown = True
+                lits = sorted(set(lits))
+                if lits and not unknown and '.*' in ''.join(lits):
+                    if prec is None and len(args) > 3: prec = A.const(args[3]) if A.const(args[3]) is not None else local_constant(fn, args[3])
+                    convs = set(x.strip()[-1:] for x in lits)
+                    if all('.*' in x for x in lits) and N is not None and prec is not None and prec >= 0:
+                        worst = max((prec + 10) if cv in 'eEgG' else (311 + prec) if cv in 'fF' else 10**9 for cv in convs)
+                        if worst < N:
+                            chk.ok('R05.1', site, dict(facts_, format='|'.join(lits), verdict='statically bounded for every format passed by the callers: at most %d characters' % worst)); continue
             if N is not None and conv in 'eEgG' and prec is not None and 0 <= prec and prec + 10 < N:
                 chk.ok('R05.1', site, dict(facts_, verdict='statically bounded: at most %d characters' % (prec + 10))); continue
             if N is not None and conv in 'fF' and prec is not None and 0 <= prec and 311 + prec < N:
